@@ -61,7 +61,8 @@ def run_rule(pid, repo_dir, tier='quick'):
     from .check import Ctx
     mod = importlib.import_module('sa.rules.%s' % pid)
     chk = core.Check(pid, tier)
-    ctx = Ctx('quick', repo=repo_dir)
+    # scratch analyses (self-test, patch replay) use the default feature set only: one compiler run per copy
+    ctx = Ctx('quick', repo=repo_dir, only=['default'])
     try:
         mod.run(chk, ctx)
     except core.FactsUnavailable as e:
